@@ -311,6 +311,8 @@ def find_item(text, kind, name, start=0, end=None, impl_header=None):
             # allow a prefix match up to generics / where clauses
             impls = [it for it in items_in(text, start, end)
                      if it.kind in ('impl', 'trait') and (it.header.startswith(want + ' ') or it.header.startswith(want + '<'))]
+        if len(impls) > 1:  # several impl blocks share the header (e.g. two `impl ConstCost`): keep those defining the item
+            impls = [im for im in impls if any(x.kind == kind and x.name == name for x in items_in(text, im.body_open + 1, im.end - 1))]
         if len(impls) != 1:
             raise ScanError('impl header %r: %d matches' % (impl_header, len(impls)))
         imp = impls[0]
